@@ -549,8 +549,8 @@ def run(tier, replay=None):
             break
     # a failed attempt followed by the sender's next attempt (same system bytes)
     retries, rwedged = [], []
-    for host, size, bad_block, pos in ([(False, 300, 1, 20), (True, 600, 2, 5), (False, 500, 1, 255)] if tier == "quick" else
-                                       [(h, sz, b, p) for h in (False, True) for sz in (245, 300, 488, 600, 1000) for b in (1, 2, 3) for p in (1, 5, 20, 254)]):
+    for host, size, bad_block, pos in ([(False, 300, 1, 20), (True, 600, 2, 5), (False, 500, 1, 255), (False, 100, 0, 30), (True, 300, 0, 100), (True, 1, 0, 12)] if tier == "quick" else
+                                       [(h, sz, b, p) for h in (False, True) for sz in (1, 100, 245, 300, 488, 600, 1000) for b in (0, 1, 2, 3) for p in (1, 5, 12, 20, 254)]):
         obs = common.guarded(lambda a=(host, size, bad_block, pos): retry_case(rnd, *a), f"retry after a damaged block: host={host} size={size} block={bad_block + 1} byte={pos}", rwedged, 30.0)
         if obs is None:
             continue
